@@ -154,7 +154,7 @@ def gen_input(rng, real_pool=False):
         # a low (Rayleigh) beacon that is not the last sensor, and a layer above it: the cone factor of that sensor is <= 0 there
         w_ = rng.randint(0, len(cfg["masks"]) - 2)
         cfg["alt"] = list(cfg["alt"]); cfg["alt"][w_] = rng.uniform(8000, 16000)
-        cfg["layers"] = list(cfg["layers"]) + [{"h": cfg["alt"][w_] + rng.uniform(500, 8000), "r0": rng.uniform(0.1, 0.8), "L0": rng.uniform(10, 60)}]
+        cfg["layers"] = list(cfg["layers"]) + [{"h": cfg["alt"][w_] * rng.uniform(1.06, 1.6), "r0": rng.uniform(0.1, 0.8), "L0": rng.uniform(10, 60)}]
         if rng.random() < 0.5:
             cfg["layers"].append({"h": rng.uniform(0, 6000), "r0": rng.uniform(0.1, 0.8), "L0": rng.uniform(10, 60)})
         cfg["uniform"] = False
